@@ -75,6 +75,13 @@ Theorem open_reads_requested : forall ops o s' h i c,
 Proof. exact T_open_reads_requested. Qed.
 Print Assumptions open_reads_requested.
 
+(* reader(serial=) opens the newest retained version carrying that serial *)
+Theorem open_serial_newest : forall ops x s' h i c,
+  step (after ops) (OpenSerial x) = Ok (s', ROpened h i c) ->
+  forall v', In v' (versions (after ops)) -> serial_of (vcont v') = Some x -> vid v' <= i.
+Proof. exact T_open_serial_newest. Qed.
+Print Assumptions open_serial_newest.
+
 (* ... and reads that same content for its whole life, whatever happens meanwhile *)
 Theorem snapshot_stable : forall ops1 ops2 h c,
   read (after ops1) h = Some c -> ~ In (Close h) ops2 -> read (after (ops1 ++ ops2)) h = Some c.
